@@ -36,6 +36,8 @@ def cells(tier, seed):
             if shape == (2, 3, 4) and lead not in (None, (3,)):
                 continue
             out.append({"kind": "ops", "D": D, "shape": shape, "lead": lead})
+            if shape != (2, 3, 4) and lead in ((), (3,)):
+                out.append({"kind": "ops", "D": D, "shape": shape, "lead": lead, "rev": True})  # types stored in non-sorted order
     for layer in ["conv", "vn", "maxpool", "gnorm_scalar", "convblock", "resnet"]:
         out.append({"kind": "vmap", "layer": layer, "D": 2, "batch": 2 if tier == "quick" else 3})
     # losses: one sample can never influence another's loss
@@ -118,7 +120,7 @@ def _ops(cfg, cx):
     from jxsmt import sym as S, interp as I, refs
 
     D, shape, lead = cfg["D"], tuple(cfg["shape"]), cfg["lead"]
-    sg = SIGS[D]
+    sg = SIGS[D][::-1] if cfg.get("rev") else SIGS[D]
     flags = (True,) * D
     if lead is None:
         n_lead = 0
@@ -127,7 +129,7 @@ def _ops(cfg, cx):
         lead = tuple(lead)
         n_lead = len(lead) + 1
         blocks = {kp: S.var_array(f"x{kp[0]}{kp[1]}", lead + (c,) + shape + (D,) * kp[0]) for kp, c in sg}
-    ckey = f"D={D}:shape={shape}:lead={cfg['lead']}"
+    ckey = f"D={D}:shape={shape}:lead={cfg['lead']}" + (":rev" if cfg.get("rev") else "")
     mk = lambda bl: geom.MultiImage({kp: bl[kp] for kp, _ in sg}, D, flags)
     lead_idx = lambda kp: list(np.ndindex(*blocks[kp].shape[:n_lead]))
 
